@@ -24,6 +24,7 @@ type writeOpts struct {
 	stdinKind string
 	pieces    int
 	encoding  string // "", "utf8bom", "utf16le", "utf16be" (the latter two with byte order mark)
+	outDev    string // -o names the process's own standard output (/dev/stdout, /dev/fd/1, /proc/self/fd/1)
 }
 
 // encodeDoc re-encodes a UTF-8 YAML document.
@@ -52,6 +53,10 @@ func playPiece(c *core.Ctx, p model.Piece, f model.Flags, o writeOpts) (*runner.
 	args := append([]string{"write"}, f.Args()...)
 	args = append(args, o.extra...)
 	var outPath string
+	if o.outDev != "" {
+		o.outFile = false
+		args = append(args, "-o", o.outDev)
+	}
 	if o.outFile {
 		outPath = c.Scratch.Path("out.mid")
 		args = append(args, "-o", outPath)
@@ -83,7 +88,7 @@ func randWriteOpts(r *rand.Rand) writeOpts {
 	o := writeOpts{
 		viaFile: r.Intn(4) == 0,
 		outFile: r.Intn(4) == 0,
-		style:   model.YAMLStyle{PlainNumbers: r.Intn(2) == 0, FlowValues: r.Intn(3) == 0, JSON: r.Intn(8) == 0, ZeroPad: r.Intn(5) == 0},
+		style:   model.YAMLStyle{PlainNumbers: r.Intn(2) == 0, FlowValues: r.Intn(3) == 0, JSON: r.Intn(8) == 0, ZeroPad: r.Intn(5) == 0, Anchors: r.Intn(6) == 0},
 	}
 	switch r.Intn(12) {
 	case 0:
@@ -94,6 +99,9 @@ func randWriteOpts(r *rand.Rand) writeOpts {
 		o.stdinKind = "socket"
 	case 3:
 		o.pieces = 2 + r.Intn(4)
+	}
+	if r.Intn(12) == 0 {
+		o.outDev = []string{"/dev/stdout", "/dev/fd/1", "/proc/self/fd/1"}[r.Intn(3)]
 	}
 	switch r.Intn(16) {
 	case 0:
